@@ -96,6 +96,7 @@ def exec_case(case, real=False):
                     return None
                 return float(min(v.min() for v in vals)), float(max(v.max() for v in vals))
 
+            allnan_leaves = set(tuple(s_["pos"]) for s_ in case["leaves"] if s_.get("kind") == "allnan")
             checked = 0
             root_hdr = None
             for n in range(depth + 1):
@@ -111,6 +112,13 @@ def exec_case(case, real=False):
                         with fits.open(path) as hl:
                             hdr = hl[0].header
                             data = np.array(hl[0].data)
+                        if tr is None and n == depth and p in allnan_leaves:
+                            # an entirely undefined leaf file (put there by the harness, half of them through Image.save): it has
+                            # no finite value, so it cannot record a finite range
+                            bad = [key for key in ("DATAMIN", "DATAMAX") if key in hdr and np.isfinite(float(hdr[key]))]
+                            if bad:
+                                raise Violation("range", f"{what}: the entirely undefined leaf {p} records {bad[0]} = {hdr[bad[0]]!r}")
+                            continue
                         if tr is None:
                             raise Violation("tile-unexpected", f"{what}: tile {p} exists without any defined leaf data beneath it")
                         for key, exp in (("DATAMIN", tr[0]), ("DATAMAX", tr[1])):
